@@ -190,6 +190,7 @@ int reb_particle_check_testparticles(struct reb_simulation* const r){
 
 int reb_get_rootbox_for_particle(const struct reb_simulation* const r, struct reb_particle pt){
 	if (r->root_size==-1) return 0;
+	if (isnan(pt.x) || isnan(pt.y) || isnan(pt.z)) return 0; // Particle flagged for removal (y=NaN). Converting NaN to int is undefined. Any root box will do, the particle is removed at the next tree update.
 	int i = ((int)floor((pt.x + r->boxsize.x/2.)/r->root_size)+r->N_root_x)%r->N_root_x;
 	int j = ((int)floor((pt.y + r->boxsize.y/2.)/r->root_size)+r->N_root_y)%r->N_root_y;
 	int k = ((int)floor((pt.z + r->boxsize.z/2.)/r->root_size)+r->N_root_z)%r->N_root_z;
